@@ -162,7 +162,7 @@ theorem spaces_balanced :
     exact graph_diffusionBalanced nN edges hv net env vol edge chem vol x
 
 /-- the graph satisfies the topology side condition of the stochastic conservation theorems -/
-theorem graph_topo_ok' (nN : Nat) (edges : List GEdge) (hv : ∀ ed ∈ edges, ed.i < nN ∧ ed.j < nN)
+theorem graph_topo_ok_all (nN : Nat) (edges : List GEdge) (hv : ∀ ed ∈ edges, ed.i < nN ∧ ed.j < nN)
     (net : Net) (env : Nat → Nat) (vol edge : Nat → Rat) (chem : Nat → Nat → Bool) (vol' : Nat → Rat) :
     TopoOK { net := net, topo := graphTopo nN edges net env vol edge, env := env, chem := chem, vol := vol' } :=
   graph_topo_ok nN edges hv net env vol edge chem vol'
